@@ -135,6 +135,11 @@ var l2CorpusPG = []corpusStmt{
 	{":exec", "INSERT INTO authors SELECT a.* FROM authors a JOIN books b ON b.author_id = a.id WHERE b.id = $1", nil, nil, nil},
 	{":exec", "DELETE FROM authors WHERE EXISTS (SELECT * FROM books b WHERE b.author_id = authors.id AND b.title = $1)", nil, nil, nil},
 	{":execrows", "UPDATE authors SET bio = $1 WHERE id IN (SELECT b.author_id FROM (SELECT * FROM books) b)", nil, nil, nil},
+	// a named parameter used again after ANOTHER name was introduced
+	{":many", "SELECT id FROM authors WHERE name = @needle OR (age > @min_age AND bio = @needle)", nil, nil, nil},
+	{":exec", "UPDATE authors SET bio = sqlc.arg(b) WHERE name = sqlc.arg(n) AND (bio = sqlc.arg(b) OR id = sqlc.arg(i))", nil, nil, nil},
+	{":many", "SELECT id FROM authors WHERE name = @n::text OR (age > @m::int AND bio = @n::text) OR age < @m::int", nil, nil, nil},
+	{":many", "SELECT id FROM authors WHERE id = @c AND name = @a AND bio = @b AND age = @c AND name <> @a", nil, nil, nil},
 }
 
 var l2CorpusMy = []corpusStmt{
